@@ -28,9 +28,10 @@ structure HEnv (E : Env) (c : Ctx) where
 
 variable {E : Env} {c : Ctx}
 
-/-- a block fits: its hash bytes are named by its id, its height is below the collision height, its timestamps fit -/
+/-- a block fits: the relevance oracle knows it, its hash bytes are named by its id, its height is below the collision
+    height, its timestamps fit -/
 def BlkFit (H : HEnv E c) (b : Block) : Prop :=
-  (H.hashOf b).length = 32 ∧ E.N.blk (H.hashOf b) = b.id ∧ b.height + 1 < collisionHeight ∧
+  H.O.dom b ∧ (H.hashOf b).length = 32 ∧ E.N.blk (H.hashOf b) = b.id ∧ b.height + 1 < collisionHeight ∧
   H.time8 b < 256 ^ 8 ∧ H.time4 b < 256 ^ 4
 
 /-- the run hypotheses of the primitives at a byte store -/
@@ -59,7 +60,7 @@ def primsOf (H : HEnv E c) (I : BStore → Prop) (hI : ∀ bs, I bs → Good H b
     exact ⟨(disconnectBlock_on_bytes' H.R H.P g.canon g.cursor (g.rb h)).1, fun bs' hd => hdisc bs h bs' hb hd⟩
   filt_sim bs rb b hb hf := by
     have g := hI bs hb
-    exact ⟨(filterBlock_on_bytes H.P H.O g.canon hf.1 hf.2.1 hf.2.2.1 hf.2.2.2.1 hf.2.2.2.2 (g.filt rb b hf)).1,
+    exact ⟨(filterBlock_on_bytes H.P H.O g.canon hf.1 hf.2.1 hf.2.2.1 hf.2.2.2.1 hf.2.2.2.2.1 hf.2.2.2.2.2 (g.filt rb b hf)).1,
       fun x hx => hfilt bs rb b x hb hf hx⟩
   ready_sim bs hb := by
     rw [H.wallets_eq]
